@@ -344,6 +344,134 @@ pub fn call_signature_mismatches(mono: &compiler::mono::MonoFile) -> Vec<(String
     bad
 }
 
+/// the direct sub-expressions of a Mono expression (arm patterns included: they are constructor applications
+/// over variables that carry the field types the arm binds)
+fn mono_children(e: &compiler::mono::MonoExpr) -> Vec<&compiler::mono::MonoExpr> {
+    use compiler::mono::MonoExpr as E;
+    match e {
+        E::EVar { .. } | E::EPrim { .. } => vec![],
+        E::EConstr { args, .. } => args.iter().collect(),
+        E::ETuple { items, .. } | E::EArray { items, .. } => items.iter().collect(),
+        E::ELet { value, body, .. } => vec![&**value, &**body],
+        E::EMatch { expr, arms, default, .. } => {
+            let mut v = vec![&**expr];
+            for arm in arms {
+                v.push(&arm.lhs);
+                v.push(&arm.body);
+            }
+            if let Some(d) = default {
+                v.push(&**d)
+            }
+            v
+        }
+        E::EIf { cond, then_branch, else_branch, .. } => vec![&**cond, &**then_branch, &**else_branch],
+        E::EWhile { cond, body, .. } => vec![&**cond, &**body],
+        E::EGo { expr, .. } | E::EConstrGet { expr, .. } | E::EUnary { expr, .. } | E::EToDyn { expr, .. } => vec![&**expr],
+        E::EBinary { lhs, rhs, .. } => vec![&**lhs, &**rhs],
+        E::ECall { func, args, .. } => std::iter::once(&**func).chain(args.iter()).collect(),
+        E::EDynCall { receiver, args, .. } => std::iter::once(&**receiver).chain(args.iter()).collect(),
+        E::EClosure { body, .. } => vec![&**body],
+        E::EProj { tuple, .. } => vec![&**tuple],
+    }
+}
+
+/// One disagreement between a use of a monomorphic data type and the ONE definition registered under its name.
+pub struct InstConflict {
+    pub func: String,
+    pub type_name: String,
+    /// constr-arg | constr-arity | field-read | no-such-field | no-definition | constr-type
+    pub site: &'static str,
+    pub defined: String,
+    pub used: String,
+}
+
+/// C07 "distinct instantiations never share a name or a body", read off the implementation's own output: after
+/// monomorphisation every data type is monomorphic, so every construction `S { .. }` / `E::V(..)`, every arm
+/// pattern and every field read in the Mono program must carry exactly the field types of the definition that
+/// `monoenv` (instances first, then the monomorphic declarations of `genv`) holds under that type name.  Two
+/// instantiations that were given one name leave ONE definition behind; the code specialised for the other
+/// instantiation then builds / reads the type at field types the definition does not have.  No model involved.
+pub fn type_instance_conflicts(mono: &compiler::mono::MonoFile, env: &GlobalMonoEnv) -> Vec<InstConflict> {
+    use compiler::common::Constructor as C;
+    use compiler::mono::MonoExpr as E;
+    // field types of constructor `c` according to the registered definition (None = no definition / no such variant)
+    let fields_of = |c: &C| -> Option<Vec<Ty>> {
+        match c {
+            C::Struct(s) => env.mono_structs.get(&s.type_name).or_else(|| env.genv.structs().get(&s.type_name)).map(|d| d.fields.iter().map(|(_, t)| t.clone()).collect()),
+            C::Enum(en) => env
+                .mono_enums
+                .get(&en.type_name)
+                .or_else(|| env.genv.enums().get(&en.type_name))
+                .and_then(|d| d.variants.get(en.index).filter(|(vn, _)| *vn == en.variant).map(|(_, ts)| ts.clone())),
+        }
+    };
+    let show = |ts: &[Ty]| ts.iter().map(compiler::names::ty_compact).collect::<Vec<_>>().join(",");
+    let mut out = Vec::new();
+    for f in mono.toplevels.iter() {
+        let mut stack = vec![&f.body];
+        while let Some(e) = stack.pop() {
+            stack.extend(mono_children(e));
+            let mut push = |type_name: &TastIdent, site: &'static str, defined: String, used: String| {
+                out.push(InstConflict { func: f.name.clone(), type_name: type_name.0.clone(), site, defined, used })
+            };
+            match e {
+                E::EConstr { constructor, args, ty } => {
+                    let used: Vec<Ty> = args.iter().map(|a| a.get_ty()).collect();
+                    let tn = constructor.type_name();
+                    let named = match (constructor, ty) {
+                        (C::Struct(_), Ty::TStruct { name }) | (C::Enum(_), Ty::TEnum { name }) => *name == tn.0,
+                        _ => false,
+                    };
+                    if !named {
+                        push(tn, "constr-type", tn.0.clone(), compiler::names::ty_compact(ty));
+                    }
+                    match fields_of(constructor) {
+                        None => push(tn, "no-definition", String::new(), show(&used)),
+                        Some(def) if def.len() != used.len() => push(tn, "constr-arity", show(&def), show(&used)),
+                        Some(def) if def != used => push(tn, "constr-arg", show(&def), show(&used)),
+                        Some(_) => {}
+                    }
+                }
+                E::EConstrGet { constructor, field_index, ty, .. } => {
+                    let tn = constructor.type_name();
+                    match fields_of(constructor) {
+                        None => push(tn, "no-definition", String::new(), compiler::names::ty_compact(ty)),
+                        Some(def) => match def.get(*field_index) {
+                            None => push(tn, "no-such-field", show(&def), format!("#{}", field_index)),
+                            Some(t) if t != ty => push(tn, "field-read", compiler::names::ty_compact(t), compiler::names::ty_compact(ty)),
+                            Some(_) => {}
+                        },
+                    }
+                }
+                _ => {}
+            }
+        }
+    }
+    out
+}
+
+/// coverage of `type_instance_conflicts`: (constructor / field-read sites whose type is an instance registered by
+/// mono, distinct instances so used)
+pub fn count_instance_uses(mono: &compiler::mono::MonoFile, env: &GlobalMonoEnv) -> (usize, usize) {
+    use compiler::mono::MonoExpr as E;
+    let mut sites = 0;
+    let mut used = std::collections::BTreeSet::new();
+    for f in mono.toplevels.iter() {
+        let mut stack = vec![&f.body];
+        while let Some(e) = stack.pop() {
+            stack.extend(mono_children(e));
+            if let E::EConstr { constructor, .. } | E::EConstrGet { constructor, .. } = e {
+                let tn = constructor.type_name();
+                if env.mono_structs.contains_key(tn) || env.mono_enums.contains_key(tn) {
+                    sites += 1;
+                    used.insert(tn.0.clone());
+                }
+            }
+        }
+    }
+    (sites, used.len())
+}
+
 /// references from the Mono program to functions of the Core program that have no Mono instance
 /// (a generic function that was needed but not specialised), with the function that refers to them
 pub fn unspecialised_refs(core: &compiler::core::File, mono: &compiler::mono::MonoFile) -> Vec<(String, String, bool)> {
@@ -381,6 +509,13 @@ pub fn emit(id: &str, src: Option<&str>, st: &Staged, out: &mut String) {
             if !cm.is_empty() {
                 writeln!(out, "{}\tCALLSIG\t{}", id, cm.iter().map(|(f, g)| format!("{}>{}", esc_line(f), esc_line(g))).collect::<Vec<_>>().join("\t")).unwrap();
             }
+            let tc = type_instance_conflicts(m, env);
+            if !tc.is_empty() {
+                let shown: Vec<String> = tc.iter().map(|c| format!("{}\u{1f}{}\u{1f}{}\u{1f}{}\u{1f}{}", esc_line(&c.func), esc_line(&c.type_name), c.site, esc_line(&c.defined), esc_line(&c.used))).collect();
+                writeln!(out, "{}\tTYINST\t{}", id, shown.join("\t")).unwrap();
+            }
+            let n_inst_uses = count_instance_uses(m, env);
+            writeln!(out, "{}\tTYINSTN\t{}\t{}", id, n_inst_uses.0, n_inst_uses.1).unwrap();
             let un = unspecialised_refs(core, m);
             if !un.is_empty() {
                 writeln!(out, "{}\tUNSPEC\t{}", id, un.iter().map(|(f, v, c)| format!("{}>{}>{}", esc_line(f), esc_line(v), if *c { "call" } else { "value" })).collect::<Vec<_>>().join("\t")).unwrap();
@@ -469,6 +604,24 @@ pub fn main(args: &util::Args) {
     }
     if args.rest.first().map(|s| s.as_str()) == Some("traits") {
         debug_traits(&args.rest[1]);
+        return;
+    }
+    if args.rest.first().map(|s| s.as_str()) == Some("inst") {
+        // the instantiation-pair catalogue, one line per program: outcome and the conflicts found
+        let dir = util::scratch_dir("c07i");
+        for (tag, src) in inst_pair_programs(args.seed) {
+            let st = run_in(&dir, &src);
+            let outcome = match &st.stop {
+                None => "ok".to_string(),
+                Some((k, s, m)) => format!("{} {} {}", k, s, m),
+            };
+            let conflicts = st.mono.as_ref().map(|(m, env)| type_instance_conflicts(m, env)).unwrap_or_default();
+            println!("{}\t{}\t{}", tag, outcome, conflicts.iter().map(|c| format!("{}:{}:{} def[{}] use[{}]", c.func, c.type_name, c.site, c.defined, c.used)).collect::<Vec<_>>().join(" ; "));
+            if args.rest.get(1).map(|s| s.as_str()) == Some(tag.as_str()) {
+                println!("{}", src);
+            }
+        }
+        let _ = std::fs::remove_dir_all(&dir);
         return;
     }
     if args.rest.first().map(|s| s.as_str()) == Some("one") {
@@ -587,6 +740,16 @@ pub fn main(args: &util::Args) {
         if let Some(line) = core_only(&p, &src) {
             writeln!(out, "{}\tCORE\t{}", id, line).unwrap();
         }
+        sink.put(&out);
+    }
+    // ---- stream 6: instantiation pairs — one generic type at two argument types that differ at exactly ONE
+    // position of the argument's type tree (every container x every position; the leaf pair rotates with the seed)
+    for (tag, src) in inst_pair_programs(args.seed) {
+        let id = format!("inst:{}", tag);
+        sink.begin(&id);
+        let st = run_in(&dir, &src);
+        let mut out = String::new();
+        emit(&id, Some(&src), &st, &mut out);
         sink.put(&out);
     }
     sink.put(&format!("#FEATS\t{}\n", feats_total.iter().map(|(k, v)| format!("{}={}", k, v)).collect::<Vec<_>>().join(" ")));
@@ -728,6 +891,85 @@ fn recursion_program(rng: &mut crate::rng::Rng, i: usize) -> (&'static str, Stri
         _ => "fn grow[T](x: T, n: int32) -> int32 { if n == 0 { 0 } else { hop(x, n - 1) } }\nfn hop[T](x: T, n: int32) -> int32 { 1 + grow(Lst::Cons(x, Lst::Nil), n) }",
     };
     ("polyrec", format!("{}{}\nfn main() -> unit {{ let r: {} = {}; string_println(int32_to_string(grow(r, 3))) }}\n", PRELUDE, f, ty, e))
+}
+
+/// generic containers `G[X]`: (tag, type over `{X}`, value from variable `{x}`, the `{x}` read back from variable `{h}`)
+const INST_CONTAINERS: &[(&str, &str, &str, &str)] = &[
+    ("Bx", "Bx[{X}]", "Bx { v: {x} }", "unbx({h})"),
+    ("Opt", "Opt[{X}]", "Opt::Som({x})", "opt_or({h}, {x})"),
+    ("Lst", "Lst[{X}]", "Lst::Cons({x}, Lst::Nil)", "lhead({h}, {x})"),
+    ("Pr1", "Pr[{X}, int32]", "Pr { a: {x}, b: 7 }", "pfst({h})"),
+    ("Pr2", "Pr[int32, {X}]", "Pr { a: 7, b: {x} }", "psnd({h})"),
+];
+
+/// positions of the leaf `{T}` inside the container's argument: (tag, type, value from the leaf literal `{V}`,
+/// the leaf read back from variable `{E}`).  `leaf` = the argument itself; `app-*` = inside a nested generic
+/// application (struct, enum, recursive enum, either parameter of a two-parameter struct, two applications deep);
+/// the rest = inside a tuple / array / Vec / Ref / function type, bare or below a generic application.
+const INST_POSITIONS: &[(&str, &str, &str, &str)] = &[
+    ("leaf", "{T}", "{V}", "{E}"),
+    ("app-struct", "Bx[{T}]", "Bx { v: {V} }", "unbx({E})"),
+    ("app-enum", "Opt[{T}]", "Opt::Som({V})", "opt_or({E}, {V})"),
+    ("app-rec-enum", "Lst[{T}]", "Lst::Cons({V}, Lst::Nil)", "lhead({E}, {V})"),
+    ("app-param1", "Pr[{T}, int32]", "Pr { a: {V}, b: 3 }", "pfst({E})"),
+    ("app-param2", "Pr[int32, {T}]", "Pr { a: 3, b: {V} }", "psnd({E})"),
+    ("app-app", "Bx[Opt[{T}]]", "Bx { v: Opt::Som({V}) }", "opt_or(unbx({E}), {V})"),
+    ("tuple", "({T}, int32)", "({V}, 3)", "fst({E})"),
+    ("tuple-app", "(Bx[{T}], int32)", "(Bx { v: {V} }, 3)", "unbx(fst({E}))"),
+    ("array", "[{T}; 2]", "[{V}, {V}]", "array_get({E}, 1)"),
+    ("array-app", "[Bx[{T}]; 2]", "[Bx { v: {V} }, Bx { v: {V} }]", "unbx(array_get({E}, 1))"),
+    ("vec", "Vec[{T}]", "vec_push(vec_new(), {V})", "vec_get({E}, 0)"),
+    ("vec-app", "Vec[Bx[{T}]]", "vec_push(vec_new(), Bx { v: {V} })", "unbx(vec_get({E}, 0))"),
+    ("ref", "Ref[{T}]", "ref({V})", "ref_get({E})"),
+    ("ref-app", "Ref[Bx[{T}]]", "ref(Bx { v: {V} })", "unbx(ref_get({E}))"),
+    ("fn-param-app", "(Bx[{T}]) -> {T}", "|b: Bx[{T}]| unbx(b)", "{E}(Bx { v: {V} })"),
+    ("fn-result-app", "(int32) -> Bx[{T}]", "|n: int32| Bx { v: {V} }", "unbx({E}(0))"),
+];
+
+/// leaf types: (type, a literal, the literal's string)
+const INST_LEAVES: &[(&str, &str, &str)] = &[
+    ("int32", "41", "int32_to_string({})"),
+    ("string", "\"s\"", "{}"),
+    ("bool", "true", "bool_to_string({})"),
+    ("int64", "5i64", "int64_to_string({})"),
+    ("Bx[int32]", "Bx { v: 9 }", "int32_to_string(unbx({}))"),
+];
+
+/// every container x every position, at two leaf types (the pair rotates with the seed and the case number):
+/// `G[P(t1)]`, `G[P(t2)]` and `G[P(t1)]` once more are built, passed through generic functions, taken apart and printed
+pub fn inst_pair_programs(seed: u64) -> Vec<(String, String)> {
+    const LIB: &str = "struct Pr[A, B] { a: A, b: B }\n\
+        fn unbx[T](b: Bx[T]) -> T { b.v }\n\
+        fn lhead[T](l: Lst[T], d: T) -> T { match l { Lst::Cons(x, _) => x, Lst::Nil => d } }\n\
+        fn pfst[A, B](p: Pr[A, B]) -> A { p.a }\n\
+        fn psnd[A, B](p: Pr[A, B]) -> B { p.b }\n\
+        fn fst[A, B](p: (A, B)) -> A { p.0 }\n";
+    let pairs: [(usize, usize); 5] = [(0, 1), (2, 3), (1, 2), (0, 3), (4, 1)];
+    let mut out = Vec::new();
+    let mut n = 0usize;
+    for (gt, gty, gval, gget) in INST_CONTAINERS {
+        for (pt, pty, pval, pget) in INST_POSITIONS {
+            let (i1, i2) = pairs[(seed as usize + n) % pairs.len()];
+            n += 1;
+            let mut body = String::new();
+            let mut shows = Vec::new();
+            for (k, li) in [(1, i1), (2, i2), (3, i1)] {
+                let (lt, lv, lshow) = INST_LEAVES[li];
+                let xt = pty.replace("{T}", lt);
+                let gt_full = gty.replace("{X}", &xt);
+                let (x, g, h, y) = (format!("x{k}"), format!("g{k}"), format!("h{k}"), format!("y{k}"));
+                writeln!(body, "  let {x}: {xt} = {};", pval.replace("{T}", lt).replace("{V}", lv)).unwrap();
+                writeln!(body, "  let {g}: {gt_full} = {};", gval.replace("{x}", &x)).unwrap();
+                let through = if k == 3 { format!("pick(true, {g}, g1)") } else { format!("idg({g})") };
+                writeln!(body, "  let {h}: {gt_full} = {through};").unwrap();
+                writeln!(body, "  let {y}: {xt} = {};", gget.replace("{h}", &h).replace("{x}", &x)).unwrap();
+                shows.push(format!("string_println({})", lshow.replace("{}", &pget.replace("{T}", lt).replace("{V}", lv).replace("{E}", &y))));
+            }
+            let src = format!("{}{}fn main() -> unit {{\n{}  let _ = {};\n  let _ = {};\n  {}\n}}\n", PRELUDE, LIB, body, shows[0], shows[1], shows[2]);
+            out.push((format!("{}:{}:{}-{}", gt, pt, INST_LEAVES[i1].0, INST_LEAVES[i2].0), src));
+        }
+    }
+    out
 }
 
 pub fn gen_cfg(i: usize) -> crate::progen::Cfg {
